@@ -159,7 +159,10 @@ def T_asym_lmi(rng, v=0):
     x0 = p.set_initial_point()
     p.set_initial_condition(x0 ** 2 <= 1)
     t, s = Expression(), Expression()
-    m = p.add_psd_matrix([[x0 ** 2, t], [s, 1]])
+    if v % 2 == 1:      # DIFFERENT constant terms at (0,1) and (1,0): the constant of the certificate then depends on which of the two entries a multiplier entry is paired with
+        m = p.add_psd_matrix([[x0 ** 2, t - 0.5], [s + 0.25, 1]])
+    else:
+        m = p.add_psd_matrix([[x0 ** 2, t], [s, 1]])
     p.add_constraint(s <= 3)
     p.add_constraint(t <= 10)
     p.add_constraint(s >= -3)
